@@ -3853,6 +3853,12 @@ PPL::Polyhedron::topological_closure_assign() {
   // Use constraints only if they are available and
   // there are no pending generators.
   if (!has_pending_generators() && constraints_are_up_to_date()) {
+    // The closure of an empty polyhedron is empty: relaxing the strict
+    // inequalities is only correct once emptiness has been ruled out.
+    if (!generators_are_up_to_date() && !update_generators()) {
+      return;
+    }
+
     bool changed = false;
 
     // Transform all strict inequalities into non-strict ones.
